@@ -34,6 +34,15 @@ CHECKS = {
             "stated normal form. Sampling over mu, not a proof.",
             "Trusts SymPy/mpmath/NumPy eig; above Routh's ratio a RuntimeError from triangular linear_modes is accepted; tolerances derived from the library's documented Brent xtol.",
             "DESIGN.md §4 C04"),
+    "C05": ("exploration",
+            "property-based testing: Hypothesis-generated residual maps through the real Newton backend with a logged oracle; end-to-end corrections re-propagated independently",
+            "Harness A drives the real _NewtonBackend with Armijo/plain steppers on generated residual maps (affine incl. singular/rectangular, polynomial with planted "
+            "root, trigonometric, rootless, NaN/raising), logs every evaluation and iterate, and checks: return => recomputed ||R|| < tol and consistent report; otherwise "
+            "ConvergenceError; Armijo residuals never increase; no update exceeds max_delta. Harness B corrects halo N/S, Lyapunov and vertical (analytic and CM seeds) "
+            "orbits at L1/L2 for several mass ratios and re-propagates initial_state for one period with SciPy DOP853 on an independent field: closure <= 100*max(tol,1e-12)*||M||, "
+            "half-period symmetry residual, Yorke period bound; failed corrections must leave state/period untouched.",
+            "Sampling over maps, families and amplitudes; exceptions raised by the residual map itself are accepted in any type; trusts SciPy DOP853 at 1e-13.",
+            "DESIGN.md §4 C05"),
     "C13": ("fault_enumeration",
             "exhaustive fault-sequence enumeration (accept/reject/raise scripts) on the real predictor-corrector backend against a reference loop model + Hypothesis long scripts + end-to-end families re-checked by independent SciPy propagation",
             "Every corrector outcome string over {accept, reject, raise} up to length 7 (quick) / 9 (thorough) x a 1536-configuration grid (step sign/magnitude, target "
